@@ -9,5 +9,6 @@ CONSTANTS
   AsFound_DecorativeExcluded = FALSE
   AsFound_TimeAxisFrozen = FALSE
   AsFound_AcceptanceUsesStepTolerance = FALSE
+  AsFound_ShortHorizonNotCompared = FALSE
 POSTCONDITION AllConsumed
 CHECK_DEADLOCK FALSE
